@@ -128,16 +128,43 @@ def run(ctx):
     grid = ctx.path("traces", "merkle-grid.ndjson")
     rows = 150 if quick else 800
     ctx.drive("merkle-grid", ["-out", grid, "-seed", ctx.seed, "-rows", rows, "-maxlen", 40])
-    mok = ctx.validate("TraceMerkle", "TraceMerkle.cfg", mfiles + [grid], what="all leaf lists of the graph + seeded grid", timeout=1800)
+    # histories of computations over SHARED leaf storage (MerkleHist.tla): prefixes / sub-ranges of one caller-owned list in
+    # real caller shapes (re-slice with capacity behind it, clipped, freshly built, reused scratch buffer), trees kept across calls
+    hcfg = "MerkleHist_quick.cfg" if quick else "MerkleHist_thorough.cfg"
+    hdot = ctx.path("merklehist.dot")
+    ctx.tlc_exhaustive("MerkleHist", hcfg, timeout=1200, dump=hdot)
+    if not quick:
+        ctx.tlc_exhaustive("MerkleHist", "MerkleHist_slots2.cfg", timeout=1200)          # design only: two kept trees
+    # negative control: a tree that builds its node queue in the caller's slice (Go append semantics) breaks the clauses
+    hneg = ctx.tlc("MerkleHist", "MerkleHist_neg.cfg", timeout=300, expect_ok=False)
+    ctx.extra["negative_control_nodes_built_in_callers_slice_violates"] = hneg["inv"]
+    if hneg["inv"] not in ("ListKept", "ResultPure", "HandlesStable"):
+        raise Broken("negative control: building the nodes in the caller's slice should violate ListKept/ResultPure/HandlesStable, got %s" % hneg["inv"])
+    hfiles, hsumm = ctx.replay("merklehist", graph=hdot, shards=8, maxlen=400, name="merklehist")
+    for need in ("AppendLeaf", "Compute", "Reread"):
+        if not hsumm["action_counts"].get(need):
+            raise Broken("merklehist replay never performed %s" % need)
+    hdrv = ctx.path("traces", "merkle-hist.ndjson")
+    hbehs, hsteps = (25, 60) if quick else (300, 80)
+    ctx.drive("merkle-hist", ["-out", hdrv, "-seed", ctx.seed, "-behs", hbehs, "-steps", hsteps, "-maxlen", 24])
+    # one validation run: the run-wide root function (one root per ordered list, one list per root) spans lists, grid and histories
+    mok = ctx.validate("TraceMerkle", "TraceMerkle.cfg", mfiles + [grid] + hfiles + [hdrv],
+                       what="all leaf lists of the graph + seeded grid + histories over shared storage (graph tours + seeded)", timeout=1800)
     ctx.extra["merkle_lists_in_graph"] = msumm["graph_nodes"]
     ctx.extra["merkle_grid_rows"] = rows if mok else 0
-    ctx.cov["samples"] += [x[:10] for x in msumm["samples"][:1]]
+    ctx.extra["merkle_history_transitions_in_graph"] = hsumm["graph_edges"]
+    ctx.extra["merkle_history_transitions_replayed"] = hsumm["graph_edges"] if mok else 0
+    ctx.extra["merkle_seeded_histories"] = dict(behaviours=hbehs, steps=hsteps, max_leaves=24, slots=3) if mok else 0
+    ctx.cov["samples"] += [x[:10] for x in msumm["samples"][:1]] + [x[:12] for x in hsumm["samples"][:1]]
     ctx.cov["exhaustive"] = True
     ctx.extra["bounds"] = dict(triekv_graph=open(ctx.specdir + "/" + cfg).read(), triekv_sim=open(ctx.specdir + "/MCTrieKV_sim.cfg").read(),
-                               merkle=open(ctx.specdir + "/" + mcfg).read(), sim_behaviours=nsim, sim_depth=depth)
+                               merkle=open(ctx.specdir + "/" + mcfg).read(), merkle_histories=open(ctx.specdir + "/" + hcfg).read(),
+                               sim_behaviours=nsim, sim_depth=depth)
     ctx.assumptions += [
         "Keccak256 is collision free on the values that occur (free hash in the design models; 'a value outside the oracle table stays outside' in TraceMerkle)",
         "key universe: byte keys 1234 1235 1245 12 1334 7234 and the empty key (plain Trie; 12 and the empty key are strict prefixes) and six preimages whose Keccak hashes share 3/2/2/1/0 "
         "leading nibbles (SecureTrie); values of 1, 27 and 40 bytes",
         "Merkle leaves are 32-byte hashes that are not themselves hashes of two tree nodes",
+        "Merkle histories: the caller only appends behind its list (existing positions are never rewritten by the caller) and a kept tree "
+        "has been asked for its root before the caller goes on (New is lazy: it reads the leaf slice at the first Root/HashNodes)",
         "one trie object per TrieDatabase at a time; TrieDatabase.Reference/Dereference are not called (as in the project)"]
